@@ -719,3 +719,14 @@ example :
       (fun s => (s.applied 0, s.applied 1, s.past, s.cpos))) = some ([7], [], [7, 8], some 2) ∧
     ((GB.LTS.run Agg.step (Agg.G.init (α := Nat) 2) [.begin 7, .deliver, .deliverPanic]).map
       (fun s => (s.applied 0, s.applied 1, s.dead, s.pos))) = some ([7], [], true, 1) := by decide
+
+/-- Regenerated wiring facts: each of the aggregate's three methods is one `range a.watchers` loop making the same
+    call on every member (`Agg.step`: `deliver` / `closeMember` walk the members in order); `Add` builds the aggregate
+    over exactly [pattern watcher, service watcher] and hands IT to `resolverBuilder.Build`; `Remove` closes the
+    watchers BEFORE the resolver (so calls on a closed aggregate do occur: `C15_aggregate_nothing_after_close`). -/
+theorem C15_facts_aggregate :
+    GB.Generated.aggregateWiring =
+      ["UpdateDesc:range-watchers:w.UpdateDesc", "ReportError:range-watchers:w.ReportError", "Close:range-watchers:w.Close",
+       "Add:members:patternWatcher,serviceWatcher", "Add:Build(name,watcher)",
+       "Remove:watcher.Close,resolver.Close,poolController.Close"] := by
+  decide
